@@ -6,15 +6,16 @@
   proves that interpreting those terms equals the hand-written model (Model/Calendar.lean).
 
   Trust base = this file + the translator.  Conventions:
-  * numbers are `Rat` (the model's abstraction of int/float), datetimes are `Time` (= Rat days); a Python `bool`
-    is a number (True = 1) for arithmetic, ordering and `==`, exactly as in Python;
+  * numbers are `Rat` (the model's abstraction of int/float), datetimes are `Time` (= Rat days), timedeltas are
+    `Rat` days; a Python `bool` is a number (True = 1) for arithmetic, ordering and `==`, exactly as in Python;
   * objects with a `get_available_units` method are opaque references `ref i`; the call is interpreted through the
-    parameter `sub : Nat → Time → Res (Option Rat)`;
-  * Python exceptions are the model's `Err`: TypeError = `.crash .type`, ZeroDivisionError = `.crash .zeroDivision`,
-    KeyError = `.crash .key`, AttributeError = `.crash .attribute`;
-  * `stuck` (= `.crash .other`) marks a run that leaves the modelled fragment (e.g. `datetime - datetime`, list
-    concatenation, truthiness of a non-bool, NameError).  The model never produces `.crash .other` for the
-    translated methods, so an equivalence theorem `interp = eval` shows in particular that no run gets stuck.
+    parameter `sub : Nat → Time → Res (Option Rat)`; `ref 0` is the object itself (`self`);
+  * Python exceptions are the model's `Err`: RuntimeError = `.runtime`, TypeError = `.crash .type`,
+    ZeroDivisionError = `.crash .zeroDivision`, KeyError = `.crash .key`, AttributeError = `.crash .attribute`;
+  * `stuck` (= `.crash .other`) marks a run that leaves the modelled fragment (e.g. list concatenation,
+    `datetime + number`, truthiness of a non-bool, NameError, a `while` loop that exhausts the interpreter's
+    fuel).  The model never produces `.crash .other` for the translated methods, so an equivalence theorem
+    `interp = eval` shows in particular that no run gets stuck.
 -/
 import PjVerif.Model.Basic
 namespace Pj.PyLite
@@ -27,7 +28,8 @@ inductive Atom
   | num (q : Rat)
   | bool (b : Bool)
   | time (t : Time)
-  | ref (i : Nat)          -- an object answering `get_available_units(date)`
+  | delta (d : Rat)        -- `timedelta`, in days
+  | ref (i : Nat)          -- an object answering `get_available_units(date)`; `ref 0` = `self`
   deriving DecidableEq, Repr, Inhabited
 
 inductive Val
@@ -82,6 +84,7 @@ inductive Expr
   | num (q : Rat)                         -- numeric literal
   | bool (b : Bool)                       -- `True` / `False`
   | var (x : String)                      -- local variable / parameter
+  | self                                  -- `self` (only as receiver of `get_available_units`)
   | field (f : String)                    -- `self.f` / `self.__f`
   | isNone (e : Expr)                     -- `e is None`
   | isNotNone (e : Expr)                  -- `e is not None`
@@ -91,6 +94,7 @@ inductive Expr
   | ite (c a b : Expr)                    -- `a if c else b`
   | units (c d : Expr)                    -- `c.get_available_units(d)`
   | dayStart (d : Expr)                   -- `_day_start(d)`
+  | timedelta (days : Expr)               -- `timedelta(days=e)`
   | weekday (d : Expr)                    -- `d.weekday()`
   | index (d k : Expr)                    -- `d[k]`
   | isIn (k d : Expr)                     -- `k in d`
@@ -101,6 +105,8 @@ inductive Stmt
   | aug (x : String) (op : BinOp) (e : Expr)           -- `x op= e`
   | ifElse (c : Expr) (t e : List Stmt)                -- `if c: t else: e` (`elif` = nested `ifElse` in `e`)
   | forIn (x : String) (e : Expr) (body : List Stmt)   -- `for x in e: body` (no `break`, no `else`)
+  | while (c : Expr) (body : List Stmt)                -- `while c: body` (no `break`, no `else`)
+  | raiseRuntime                                       -- `raise RuntimeError(...)`
   | continue
   | ret (e : Expr)                                     -- `return e`
   | pass
@@ -119,11 +125,24 @@ def Env.set : Env → String → Val → Env
 
 /-! ### expressions -/
 
-/-- `+ - * /` on int/float/bool; `None` operand: TypeError; division by zero: ZeroDivisionError -/
+/-- datetime/timedelta arithmetic -/
+def arithTime (op : BinOp) (a b : Atom) : Option Atom :=
+  match op, a, b with
+  | .add, .time x, .delta d => some (.time (x + d))
+  | .add, .delta d, .time x => some (.time (x + d))
+  | .sub, .time x, .delta d => some (.time (x - d))
+  | .sub, .time x, .time y => some (.delta (x - y))
+  | .add, .delta d, .delta e => some (.delta (d + e))
+  | .sub, .delta d, .delta e => some (.delta (d - e))
+  | _, _, _ => Option.none
+
+/-- `+ - * /` on int/float/bool (`None` operand: TypeError; division by zero: ZeroDivisionError) and `+ -` on
+    datetimes/timedeltas -/
 def arith (op : BinOp) (a b : Val) : Res Val :=
   match a, b with
   | .atom a, .atom b =>
-    if (a = .none ∨ a.asNum?.isSome) ∧ (b = .none ∨ b.asNum?.isSome) then
+    if let some r := arithTime op a b then pure r
+    else if (a = .none ∨ a.asNum?.isSome) ∧ (b = .none ∨ b.asNum?.isSome) then
       match a.asNum?, b.asNum? with
       | some x, some y =>
         match op with
@@ -140,7 +159,7 @@ def cmpRat (op : CmpOp) (x y : Rat) : Bool :=
   | .lt => decide (x < y) | .gt => decide (y < x) | .le => decide (x ≤ y) | .ge => decide (y ≤ x)
   | .eq => decide (x = y) | .ne => !decide (x = y)
 
-/-- comparisons: ordering needs two numbers or two datetimes (`None`, or a datetime against a number: TypeError);
+/-- comparisons: ordering needs two numbers, two datetimes or two timedeltas (`None`, or mixed kinds: TypeError);
     `==`/`!=` on scalars never raise -/
 def compare (op : CmpOp) (a b : Val) : Res Val :=
   match a, b with
@@ -151,6 +170,7 @@ def compare (op : CmpOp) (a b : Val) : Res Val :=
     | _ =>
       match a, b with
       | .time x, .time y => pure (Atom.bool (cmpRat op x y))
+      | .delta x, .delta y => pure (Atom.bool (cmpRat op x y))
       | .ref _, _ => throw stuck
       | _, .ref _ => throw stuck
       | a, b =>
@@ -172,6 +192,7 @@ def Expr.eval (sub : Nat → Time → Res (Option Rat)) (self : Env) (env : Env)
   | .var x => match env.get? x with
     | some v => pure v
     | Option.none => throw stuck                        -- NameError / UnboundLocalError
+  | .self => pure (Atom.ref 0)
   | .field f => match self.get? f with
     | some v => pure v
     | Option.none => throw (.crash .attribute)
@@ -216,6 +237,13 @@ def Expr.eval (sub : Nat → Time → Res (Option Rat)) (self : Env) (env : Env)
     | .atom (.time t) => pure (Atom.time (midnight t))
     | .atom .none => throw (.crash .attribute)
     | _ => throw stuck
+  | .timedelta d => do
+    match (← d.eval sub self env) with
+    | .atom .none => throw (.crash .type)
+    | .atom a => match a.asNum? with
+      | some q => pure (Atom.delta q)
+      | Option.none => throw stuck
+    | _ => throw stuck
   | .weekday d => do
     match (← d.eval sub self env) with
     | .atom (.time t) => pure (Atom.num ((Pj.weekday t : Nat) : Rat))
@@ -257,6 +285,20 @@ def forLoop (x : String) (body : Env → Outcome) : List Atom → Env → Outcom
     | .cont env' => forLoop x body vs env'
     | r => r
 
+/-- `while cond: body`, both already interpreted as functions of the environment; at most `fuel` evaluations of
+    the condition, then the run is stuck -/
+def whileLoop (cond : Env → Res Bool) (body : Env → Outcome) : Nat → Env → Outcome
+  | 0, _ => .raise stuck
+  | fuel + 1, env =>
+    match cond env with
+    | .error err => .raise err
+    | .ok false => .normal env
+    | .ok true =>
+      match body env with
+      | .normal env' => whileLoop cond body fuel env'
+      | .cont env' => whileLoop cond body fuel env'
+      | r => r
+
 /-- the sequence iterated by `for`: a list, or the keys of a dict; `None`: TypeError -/
 def iterOf : Val → Res (List Atom)
   | .list vs => pure vs
@@ -265,7 +307,7 @@ def iterOf : Val → Res (List Atom)
   | _ => throw stuck
 
 mutual
-def Stmt.exec (sub : Nat → Time → Res (Option Rat)) (self : Env) : Stmt → Env → Outcome
+def Stmt.exec (sub : Nat → Time → Res (Option Rat)) (self : Env) (fuel : Nat) : Stmt → Env → Outcome
   | .assign x e, env =>
     match e.eval sub self env with
     | .ok v => .normal (env.set x v)
@@ -282,12 +324,15 @@ def Stmt.exec (sub : Nat → Time → Res (Option Rat)) (self : Env) : Stmt → 
         | .error err => .raise err
   | .ifElse c t e, env =>
     match (do truth (← c.eval sub self env)) with
-    | .ok b => if b then execBlock sub self t env else execBlock sub self e env
+    | .ok b => if b then execBlock sub self fuel t env else execBlock sub self fuel e env
     | .error err => .raise err
   | .forIn x e body, env =>
     match (do iterOf (← e.eval sub self env)) with
-    | .ok vs => forLoop x (fun env' => execBlock sub self body env') vs env
+    | .ok vs => forLoop x (fun env' => execBlock sub self fuel body env') vs env
     | .error err => .raise err
+  | .while c body, env =>
+    whileLoop (fun env' => do truth (← c.eval sub self env')) (fun env' => execBlock sub self fuel body env') fuel env
+  | .raiseRuntime, _ => .raise .runtime
   | .continue, env => .cont env
   | .ret e, env =>
     match e.eval sub self env with
@@ -295,23 +340,30 @@ def Stmt.exec (sub : Nat → Time → Res (Option Rat)) (self : Env) : Stmt → 
     | .error err => .raise err
   | .pass, env => .normal env
 
-def execBlock (sub : Nat → Time → Res (Option Rat)) (self : Env) : List Stmt → Env → Outcome
+def execBlock (sub : Nat → Time → Res (Option Rat)) (self : Env) (fuel : Nat) : List Stmt → Env → Outcome
   | [], env => .normal env
   | s :: ss, env =>
-    match s.exec sub self env with
-    | .normal env' => execBlock sub self ss env'
+    match s.exec sub self fuel env with
+    | .normal env' => execBlock sub self fuel ss env'
     | r => r
 end
 
-/-- run a method body `def get_available_units(self, date, ...)`: `date` bound, falling off the end returns
-    `None`; the returned value must be `None` or a number -/
-def run (sub : Nat → Time → Res (Option Rat)) (body : List Stmt) (self : Env) (date : Time) : Res (Option Rat) :=
-  match execBlock sub self body [("date", .atom (.time date))] with
-  | .normal _ => pure Option.none
-  | .cont _ => pure Option.none                        -- unreachable: `continue` only occurs inside `for`
-  | .ret (.atom .none) => pure Option.none
-  | .ret (.atom (.num q)) => pure (some q)
-  | .ret _ => throw stuck
+/-- run a method body with the given parameter bindings; falling off the end returns `None`.
+    `fuel` bounds every `while` loop (a body without `while` needs none). -/
+def runBody (sub : Nat → Time → Res (Option Rat)) (self : Env) (fuel : Nat) (body : List Stmt) (params : Env) :
+    Res Val :=
+  match execBlock sub self fuel body params with
+  | .normal _ => pure Atom.none
+  | .cont _ => pure Atom.none                           -- unreachable: `continue` only occurs inside loops
+  | .ret v => pure v
   | .raise e => throw e
+
+/-- run `def get_available_units(self, date, ...)`: the returned value must be `None` or a number -/
+def run (sub : Nat → Time → Res (Option Rat)) (body : List Stmt) (self : Env) (date : Time) : Res (Option Rat) :=
+  match runBody sub self 0 body [("date", .atom (.time date))] with
+  | .ok (.atom .none) => pure Option.none
+  | .ok (.atom (.num q)) => pure (some q)
+  | .ok _ => throw stuck
+  | .error e => throw e
 
 end Pj.PyLite
